@@ -58,7 +58,7 @@ class Parser(object):
         return self._number(t, 8)
 
     def t_CONST10(self, t):
-        r'(([1-9]\d*)|0)'
+        r'(([1-9][0-9]*)|0)'
         return self._number(t, 10)
 
     t_LBRACKET = r'\['
